@@ -133,7 +133,27 @@ func fieldTag(st *types.Struct, name string) (xmlTag, *types.Var, bool) {
 	return xmlTag{}, nil, false
 }
 
+// encSchemaTable: xmlenc names the decrypting code relies on (C07-R7). Field tags carry no namespace: the elements are
+// matched by local name whatever prefix / default-namespace style the sender uses.
+var encSchemaTable = []typeSpec{
+	{"types.EncryptedAssertion", nsA, "EncryptedAssertion", []fieldSpec{
+		{"EncryptionMethod", "elem", "EncryptedData>EncryptionMethod", "types.EncryptionMethod"},
+		{"EncryptedKey", "elem", "EncryptedData>KeyInfo>EncryptedKey", "types.EncryptedKey"},
+		{"DetEncryptedKey", "elem", "EncryptedKey", "types.EncryptedKey"},
+		{"CipherValue", "elem", "EncryptedData>CipherData>CipherValue", "string"}}},
+	{"types.EncryptedKey", "", "", []fieldSpec{
+		{"EncryptionMethod", "elem", "EncryptionMethod", "types.EncryptionMethod"},
+		{"X509Data", "elem", "KeyInfo>X509Data>X509Certificate", "string"},
+		{"CipherValue", "elem", "CipherData>CipherValue", "string"}}},
+	{"types.EncryptionMethod", "", "", []fieldSpec{{"Algorithm", "attr", "Algorithm", "string"}, {"DigestMethod", "elem", "DigestMethod", "*types.DigestMethod"}}},
+	{"types.DigestMethod", "", "", []fieldSpec{{"Algorithm", "attr", "Algorithm", "string"}}},
+}
+
 func checkSchemaTable(c *Ctx, rule string, table []typeSpec) {
+	checkSchemaTableF(c, rule, table, false, 76)
+}
+
+func checkSchemaTableF(c *Ctx, rule string, table []typeSpec, strictNS bool, floor int) {
 	n := 0
 	for _, ts := range table {
 		nt, st := structOf(c, ts.Type)
@@ -143,8 +163,10 @@ func checkSchemaTable(c *Ctx, rule string, table []typeSpec) {
 		}
 		pos := c.P.Pos(nt.Obj().Pos())
 		xn, _, ok := fieldTag(st, "XMLName")
-		n++
-		c.check(ok && xn.NS == ts.NS && xn.Local == ts.Local, rule, ts.Type, "XMLName", pos, "{"+ts.NS+"}"+ts.Local, fmt.Sprintf("element name of %s is %s, want {%s}%s", ts.Type, xn, ts.NS, ts.Local))
+		if ts.Local != "" || ok {
+			n++
+			c.check((ok && xn.NS == ts.NS && xn.Local == ts.Local) || (!ok && ts.Local == ""), rule, ts.Type, "XMLName", pos, "{"+ts.NS+"}"+ts.Local, fmt.Sprintf("element name of %s is %s, want {%s}%s", ts.Type, xn, ts.NS, ts.Local))
+		}
 		for _, fs := range ts.Fields {
 			tg, fv, ok := fieldTag(st, fs.Field)
 			n++
@@ -153,6 +175,9 @@ func checkSchemaTable(c *Ctx, rule string, table []typeSpec) {
 				continue
 			}
 			good := tg.Kind == fs.Kind && tg.Local == fs.Local && (tg.NS == "" || tg.NS == ts.NS || fs.Kind == "elem")
+			if strictNS && tg.NS != "" {
+				good = false
+			}
 			gt := typeStr(fv.Type())
 			gt = strings.ReplaceAll(gt, "saml2.", "")
 			c.check(good && gt == fs.GoType, rule, ts.Type, "field "+fs.Field, c.P.Pos(fv.Pos()), fs.Kind+" "+fs.Local+" : "+fs.GoType,
@@ -160,13 +185,15 @@ func checkSchemaTable(c *Ctx, rule string, table []typeSpec) {
 		}
 	}
 	c.count(rule+"/tags", n)
-	c.floor(rule+"/tags", 76)
+	c.floor(rule+"/tags", floor)
 }
 
 func ruleC08(c *Ctx) {
 	c.rule("C08-R1", "schema table: for every field the property enumerates, the parsed xml tag (kind, local name, namespace of the element type's XMLName) and Go type equal the SAML core schema entry")
 	c.rule("C08-R2", "summary wiring in RetrieveAssertionInfo: NameID, Values[attribute.Name] = attribute for all attributes in order, SessionIndex / AuthnInstant / SessionNotOnOrAfter from the AuthnStatement, Assertions = the whole validated list")
 	c.rule("C08-R3", "accessor idioms: Get = first value or \"\", GetSize = len or 0, GetAll = all values in index order; nil map and absent key give empty results")
+	c.rule("C08-R8", "parser and serialiser run with etree's default settings: no library function touches Document.ReadSettings / WriteSettings (the contracts for parse, copy, canonicalise and re-serialise — text recovered across CDATA, comments, character references — are those of the defaults); positive control must fire")
+	parserDefaults(c, "C08-R8")
 	c.rule("C08-R4", "decode targets are fresh and decoded from the verified element (shared with C01-R1/R2): the assertion list returned is exactly what was decoded from signed bytes")
 	checkSchemaTable(c, "C08-R1", schemaTable)
 	decodedImmutable(c, "C08-R6")
@@ -657,4 +684,52 @@ func zeroStateAt(t *Terminal, obj Val, lo, hi int) (bool, string) {
 		}
 	}
 	return zero, why
+}
+
+// parserDefaults: references to etree.Document's ReadSettings / WriteSettings fields in library scope (expected: none).
+func parserDefaults(c *Ctx, rule string) {
+	scan := func(fns []*ssa.Function, visit func(fn *ssa.Function, in ssa.Instruction, what string)) int {
+		n := 0
+		for _, fn := range fns {
+			for _, b := range fn.Blocks {
+				for _, in := range b.Instrs {
+					var owner types.Type
+					field := -1
+					switch x := in.(type) {
+					case *ssa.FieldAddr:
+						owner, field = x.X.Type(), x.Field
+					case *ssa.Field:
+						owner, field = x.X.Type(), x.Field
+					default:
+						continue
+					}
+					st, ok := derefStruct(owner)
+					if !ok {
+						continue
+					}
+					ts := typeStr(st)
+					if ts != "etree.Document" {
+						continue
+					}
+					name := st.Underlying().(*types.Struct).Field(field).Name()
+					if name == "ReadSettings" || name == "WriteSettings" {
+						n++
+						visit(fn, in, name)
+					}
+				}
+			}
+		}
+		return n
+	}
+	n := scan(c.P.LibFns, func(fn *ssa.Function, in ssa.Instruction, what string) {
+		c.bad(rule, shortFn(fn), "etree.Document."+what+" touched", c.P.InstrPos(in), "the library changes etree's "+what+": parsing / serialisation of inbound messages no longer follows the defaults the signature and decode pipeline relies on (e.g. PreserveCData keeps CDATA sections verbatim, so the canonical form and the digest change)")
+	})
+	if n == 0 {
+		c.ok(rule, "library", "etree settings untouched", "-", "no reference to Document.ReadSettings / WriteSettings in library scope")
+	}
+	fired := scan(controlFns(c, "etreesettings"), func(*ssa.Function, ssa.Instruction, string) {})
+	c.Controls[rule+" etreesettings"] = fired > 0
+	if fired == 0 {
+		c.bad(rule, "controls/etreesettings", "positive control", "-", "matcher did not flag the control that sets ReadSettings")
+	}
 }
